@@ -190,3 +190,62 @@ func reachesAvoiding(from, target *ssa.BasicBlock, avoid map[*ssa.BasicBlock]boo
 	}
 	return an.Reachable(from, target, avoid)
 }
+
+// ---- C06.fresh-cursor: every scan starts from a tree cursor created for this xFilter call ---------
+
+func init() {
+	register(&Rule{Name: "C06.fresh-cursor", Min: 3, Run: c06FreshCursor,
+		Doc: "every seek (Ceil/Min/Max) of Cursor.Filter is on a cursor created by this call"})
+	byProp["C06"] = append(byProp["C06"], "C06.fresh-cursor", "C07.compare-only", "C07.convert-range")
+	explain["C06"] += " Also: fresh-cursor (mast's Ceil searches from the cursor's current node downward, so a seek is only correct on a cursor that starts at the root: each seek of Filter must be dominated by the creation of the cursor in the same call) and the comparator clauses compare-only / convert-range shared with C07 (key comparisons are part of every pushed-down predicate)."
+	byProp["C14"] = append(byProp["C14"], "C05.snapshot")
+	explain["C14"] += " snapshot (shared with C05): after a failed storage commit the rollback SQLite performs restores the pre-transaction tree on every path, so the connection does not keep, and later publish, a tree whose flush failed."
+}
+
+func c06FreshCursor(c *Ctx) {
+	const rule = "C06.fresh-cursor"
+	fn := mustFunc(c, "", "*Cursor", "Filter")
+	curF := mustField(c, "", "Cursor", "cursor")
+	if fn == nil || curF == nil {
+		return
+	}
+	name := core.FuncName(fn)
+	// creation: c.cursor = <result of (*kv.DB).Cursor(ctx)>
+	var creates []ssa.CallInstruction
+	var createStores []*ssa.Store
+	for _, st := range an.StoresToField(fn, curF) {
+		if ex, ok := an.Unwrap(st.Val).(*ssa.Extract); ok && ex.Index == 0 {
+			if cl, ok := ex.Tuple.(*ssa.Call); ok && an.CalleeIs(cl, kvPkg, "DB", "Cursor") {
+				creates = append(creates, cl)
+				createStores = append(createStores, st)
+			}
+		}
+	}
+	if len(creates) == 0 {
+		c.R.Bad(rule, name+": creates a cursor", c.P.Pos(fn.Pos()), "Filter never assigns a new tree cursor")
+		return
+	}
+	n := 0
+	for _, call := range an.Calls(fn) {
+		m := calleeLabel(call)
+		if m != "Ceil" && m != "Min" && m != "Max" {
+			continue
+		}
+		rv := an.RecvValue(call)
+		if rv == nil || !an.HasField(rv, curF) {
+			continue
+		}
+		n++
+		good := false
+		for i, cr := range creates {
+			if ok, _ := an.SuccessDominates(cr, call); ok && an.InstrBefore(createStores[i], call) {
+				good = true
+			}
+		}
+		c.R.Cond(good, rule, fmt.Sprintf("%s: %s on a fresh cursor", name, m), c.P.Pos(call.Pos()),
+			"the seek is dominated by the creation of the cursor in this call", "a seek can run on a cursor kept from an earlier xFilter call: mast searches downward from the cursor's current node, so a probe for a key that sorts before it lands past the bound and rows are silently missing (multi-level trees)")
+	}
+	if n == 0 {
+		c.R.Unk(rule, name+": seeks", c.P.Pos(fn.Pos()), "no Ceil/Min/Max on c.cursor found")
+	}
+}
